@@ -20,7 +20,8 @@ META = {
              'every removed id and name. Workloads: bounded-exhaustive histories (all sequences of length <= 3, thorough 4, '
              'over a tiny universe of 21 operations: 2 types, names a/b, ids auto/0/1/-1, one reflexive and one ordinary '
              'association, 1 attacker) + random histories of length <= 60 over coreLang and generated languages with 20 % '
-             'invalid arguments; non-trivial = history with >= 1 removal and >= 1 association; distinct = digest(history)'),
+             'invalid arguments; non-trivial = history with >= 1 removal and >= 1 association; distinct = digest(history)'
+             '; added strata: refused re-add of an asset of the model, ids given as schema integers, entry points without steps, attackers prepared before their assets were added, association instances with an empty side, instances with 33-144 pairs and duplicate attempts against them'),
     'assumptions': ['shadow semantics in mtv/shadow.py', 'the implementation may choose automatic ids and replacement names (S5)',
                     'linking removed/foreign assets and clashing attacker ids are outside the property and not generated'],
     'shards': {'quick': 8, 'thorough': 16},
